@@ -48,6 +48,21 @@ def _template_main(lsock, ctl_r, repo_src: str, flavour: str) -> None:
             )
         if flavour == "audio":
             import soundevent.audio  # noqa: PLC0415,F401
+        # every submodule now: the seams are attached to module globals, and
+        # a module the library imports lazily, on first use, must already be
+        # there when they are
+        import importlib  # noqa: PLC0415
+        import pkgutil  # noqa: PLC0415
+
+        for info in pkgutil.walk_packages(soundevent.__path__, "soundevent."):
+            if flavour != "audio" and info.name.startswith(
+                ("soundevent.audio", "soundevent.plot")
+            ):
+                continue
+            try:
+                importlib.import_module(info.name)
+            except Exception:  # noqa: BLE001  (optional dependency missing)
+                pass
         from . import nodeside, shims  # noqa: PLC0415
 
         installed = shims.install(aoef=True, audio=(flavour == "audio"))
